@@ -1,7 +1,10 @@
 """stubtest reports `__type_params__` of PEP 695 generic classes as missing from the stub.
 
 Exit status 1 = defect present, 0 = absent, 2 = inconclusive (preconditions of the input failed).
-Mechanism keys: stubtest:parse-only:pep695-class.__type_params__:is not present in stub, stubtest:semantic:pep695-class.__type_params__:is not present in stub"""
+Mechanism keys:
+  stubtest:parse-only:pep695-class.__type_params__:is not present in stub
+  stubtest:semantic:pep695-class.__type_params__:is not present in stub
+"""
 import os
 import sys
 
